@@ -91,6 +91,16 @@ fn unary_cases() -> &'static Vec<String> {
         for n in 0..=25 {
             v.push(format!("{}!", n));
         }
+        // Integer and Float literals with redundant leading zeros (the value decides the variant, not the length of the text)
+        for z in [1usize, 17, 18, 19, 20, 21, 30, 64, 100] {
+            for d in ["42", "0", "9223372036854775807", "9223372036854775808", "7.5", "10"] {
+                let lit = format!("{}{}", "0".repeat(z), d);
+                v.push(format!("{}/6", lit));
+                v.push(format!("{}-1", lit));
+                v.push(format!("2^{}", lit));
+                v.push(format!("-{}", lit));
+            }
+        }
         // every composition of two unary forms (a pair of operations that cancels numerically need not cancel in the
         // type: -(-MIN) is a Float)
         let forms = ["floor({})", "ceil({})", "round({})", "trunc({})", "abs({})", "sgn({})", "⌊{}⌋", "⌈{}⌉", "-{}", "-({})", "({})²", "+{}", "({})!"];
